@@ -52,6 +52,7 @@ func driveWalk(c *Ctx) error {
 		for vi, vj := range asL(j["vs"]) {
 			root := Concretize(asJ(vj), 0)
 			ev := J{"ev": "walk", "root": Project(root)}
+			ev["ia"] = digestOf(ev["root"])
 			// Walk: log path (copied, as documented), member, and Path.Apply(root)
 			visits := []any{}
 			p, msg := guard(func() {
@@ -115,6 +116,7 @@ func driveWalk(c *Ctx) error {
 				um = J{"ok": false, "msg": trunc(msg)}
 			}
 			ev["um"] = um
+			ev["ia2"] = digestOf(Project(root)) // the walked value re-read after all traversals
 			c.Out.Emit(ev)
 			// path application: valid and invalid paths (only on the base value and first variants to bound the volume)
 			if vi < 3 {
